@@ -630,40 +630,130 @@ def stage_closest(ctx: Ctx, cs: Cases):
 
 
 # ----------------------------------------------------------------------------------------------- stage F: cube files (sweep)
+CUBE_SPECIAL_DATA = [-4.41561e-178, 4.41561e-178, 9.999996e99, -9.999996e99, 9.999996e-100, -9.999996e-100, 1e-320, -1e-320, 5e-324, -5e-324,
+                     0.0, -0.0, 1.7976931348623157e308, -1.7976931348623157e308, 2.2250738585072014e-308, -1e-300, 1e300, -9.9999949e-10, 9.9999951e9,
+                     -1e100, 1e-100, -123456.5, 1.0]
+
+
+def cube_value(ctx, extreme):
+    if not extreme:
+        return ctx.rng.choice([-1, 1]) * ctx.rng.random() * 10.0 ** ctx.rng.randint(-8, 8)
+    if ctx.rng.random() < 0.25:
+        return ctx.rng.choice(CUBE_SPECIAL_DATA)
+    return ctx.rng.choice([-1, 1]) * ctx.rng.uniform(1.0, 10.0) * 10.0 ** ctx.rng.randint(-300, 300)
+
+
+def cube_length(ctx, extreme):
+    """A coordinate / axis entry: ordinary, or (extreme) anything between 1e-7 and 99999.999999 of either sign."""
+    if not extreme:
+        return ctx.rng.randint(-6400, 6400) / 1024
+    return ctx.rng.choice([-1, 1]) * ctx.rng.choice([1e-7, 0.999999, 12.5, 999.9999995, 1000.0, 1234.567891, 99999.0, 99999.999999, ctx.rng.uniform(0, 99999)])
+
+
+def cube_close(got, want, scale):
+    got, want = np.asarray(got, float), np.asarray(want, float)
+    return got.shape == want.shape and bool(np.all(np.abs(got - want * scale) <= 0.5000001e-6 * scale + 1e-14 * np.abs(want * scale)))
+
+
+def cube_data_close(got, want):
+    got, want = np.asarray(got, float), np.asarray(want, float)
+    # six significant digits; one unit in the last place of a denormal on top
+    return got.shape == want.shape and bool(np.all(np.abs(got - want) <= 0.5000001e-5 * np.abs(want) + 5e-324))
+
+
+def cube_tokens_ok(lines, natom, o, axes, shape, atnums, pseudo, atcoords, data):
+    """Independent reading of the written text: whitespace-separated tokens, header / atoms / rows of at most six values,
+    every number equal to the written one to the printed precision.  Returns None or a description of the first defect."""
+    n = len(data)
+    if len(lines) != 6 + natom + math.ceil(n / 6):
+        return f"{len(lines)} lines instead of {6 + natom + math.ceil(n / 6)}"
+    try:
+        head = [ln.split() for ln in lines[2:6 + natom]]
+        want_head = [[natom] + list(o)] + [[shape[c]] + list(axes[c]) for c in range(3)] + [[atnums[a], pseudo[a]] + list(atcoords[a]) for a in range(natom)]
+        for k, (t, w) in enumerate(zip(head, want_head)):
+            if len(t) != len(w):
+                return f"line {3 + k} has {len(t)} fields instead of {len(w)}: {lines[2 + k]!r}"
+            if int(t[0]) != int(w[0]) or not cube_close([float(x) for x in t[1:]], w[1:], 1.0):
+                return f"line {3 + k} does not carry {w}: {lines[2 + k]!r}"
+        toks = [ln.split() for ln in lines[6 + natom:]]
+        if not (all(1 <= len(t) <= 6 for t in toks) and all(len(t) == 6 for t in toks[:-1]) and sum(len(t) for t in toks) == n):
+            k = next((j for j, t in enumerate(toks) if len(t) != min(6, n - 6 * j)), 0)
+            return f"data row {k + 1} has {len(toks[k])} values instead of {min(6, n - 6 * k)}: {lines[6 + natom + k]!r}"
+        if not cube_data_close([float(x) for t in toks for x in t], data):
+            return "data tokens do not carry the data to six significant digits"
+    except ValueError as e:
+        return f"unparsable field ({e})"
+    return None
+
+
 def stage_cube(ctx: Ctx):
     from grid.cubic import UniformGrid
     from grid.utils import ANGSTROM_TO_BOHR
 
     tmp = ctx.build / "cube_tmp"
     tmp.mkdir(exist_ok=True)
-    for trial in range(6 if ctx.quick else 200):
-        shape = tuple(ctx.rng.randint(2, 5) for _ in range(3))
+    # data lengths of every residue modulo 6 (a grid has at least 2x2x2 points; shorter data: writer-only check below)
+    shapes_dir = [(2, 2, 2), (2, 2, 3), (3, 3, 3), (2, 2, 4), (5, 5, 5), (7, 7, 7), (2, 3, 5), (3, 3, 5), (2, 5, 2)]
+    nord = 6 if ctx.quick else 200
+    next_ = len(shapes_dir) + (25 if ctx.quick else 1500)
+    for trial in range(nord + next_):
+        extreme = trial >= nord
+        if extreme and trial - nord < len(shapes_dir):
+            shape = shapes_dir[trial - nord]
+        else:
+            shape = tuple(ctx.rng.randint(2, 5) for _ in range(3))
         n = prod(shape)
-        o = [ctx.rng.randint(-640, 640) / 64 for _ in range(3)]
-        axes = [[ctx.rng.randint(-32, 32) / 64 for _ in range(3)] for _ in range(3)]
-        if abs(np.linalg.det(np.array(axes))) < 1e-3:
-            axes = [[0.5, 0, 0], [0, 0.25, 0], [0.125, 0, 1.0]]
+        if not extreme:
+            o = [ctx.rng.randint(-640, 640) / 64 for _ in range(3)]
+            axes = [[ctx.rng.randint(-32, 32) / 64 for _ in range(3)] for _ in range(3)]
+            if abs(np.linalg.det(np.array(axes))) < 1e-3:
+                axes = [[0.5, 0, 0], [0, 0.25, 0], [0.125, 0, 1.0]]
+        else:
+            o = [cube_length(ctx, True) for _ in range(3)]
+            # diagonal entries of full size and of either sign, small / tiny off-diagonal ones: never singular
+            axes = [[(ctx.rng.choice([-1, 1]) * ctx.rng.choice([0.25, 1.5, 1234.567891, 99999.999999]) if r == c else ctx.rng.choice([0.0, 1e-7, -1e-7, 0.015625]))
+                     for c in range(3)] for r in range(3)]
         na = ctx.rng.randint(1, 4)
-        atnums = [ctx.rng.randint(1, 90) for _ in range(na)]
-        pseudo = [float(z - ctx.rng.choice([0, 2, 10])) if z > 10 else float(z) for z in atnums]
-        atcoords = [[ctx.rng.randint(-6400, 6400) / 1024 for _ in range(3)] for _ in range(na)]
-        data = np.array([ctx.rng.choice([-1, 1]) * ctx.rng.random() * 10.0 ** ctx.rng.randint(-8, 8) for _ in range(n)])
+        if extreme:  # ends of the ranges: dummy atom (0, 0.0), hydrogen, oganesson; core charges from 1 to Z (and a negative four-digit one)
+            atnums = [ctx.rng.choice([0, 1, 2, 117, 118]) for _ in range(na)]
+            pseudo = [0.0 if z == 0 else float(ctx.rng.choice([1, z])) for z in atnums]
+            if trial % 3 == 0:
+                atnums[0], pseudo[0] = 118, -1000.5
+        else:
+            atnums = [ctx.rng.randint(1, 90) for _ in range(na)]
+            pseudo = [float(z - ctx.rng.choice([0, 2, 10])) if z > 10 else float(z) for z in atnums]
+        atcoords = [[cube_length(ctx, extreme) for _ in range(3)] for _ in range(na)]
+        data = np.array([cube_value(ctx, extreme) for _ in range(n)])
         if trial == 0:
-            data[: min(n, 3)] = [0.0, 1.0, -123456.5][: min(n, 3)]
-        key = f"cube:{shape}:{trial}"
+            data[:3] = [0.0, 1.0, -123456.5]
+        if extreme and trial - nord < len(shapes_dir):  # every special value, at every position of a row
+            k0 = (trial - nord) % 6
+            for j, v in enumerate(CUBE_SPECIAL_DATA[: max(0, n - k0)]):
+                data[k0 + j] = v
+        key = f"cube:{shape}:{trial}" + (":extreme" if extreme else "")
         ctx.case(key, traces=n)
-        ctx.count("cube_roundtrips")
+        ctx.count("cube_roundtrips_extreme" if extreme else "cube_roundtrips")
         f = tmp / f"t{trial}.cube"
         g = UniformGrid(np.array(o), np.array(axes), np.array(shape), weight="Rectangle")
-        rep = {"origin": o, "axes": axes, "shape": shape, "atnums": atnums, "pseudo": pseudo, "atcoords": atcoords, "data": data.tolist()}
+        rep = {"origin": o, "axes": axes, "shape": shape, "atnums": atnums, "pseudo": pseudo, "atcoords": atcoords, "data": data.tolist(),
+               "reproduce": "g = UniformGrid(np.array(origin), np.array(axes), np.array(shape)); g.generate_cube('t.cube', np.array(data), np.array(atcoords), "
+                            "np.array(atnums), np.array(pseudo)); UniformGrid.from_cube('t.cube', return_data=True)"}
         try:
             g.generate_cube(str(f), data, np.array(atcoords), np.array(atnums), np.array(pseudo))
             lines = f.read_text().splitlines()
-            toks = [ln.split() for ln in lines[6 + na:]]
-            ok_tokens = (len(lines) == 6 + na + math.ceil(n / 6) and all(1 <= len(t) <= 6 for t in toks) and all(len(t) == 6 for t in toks[:-1])
-                         and [format(float(x), "12.5E").strip() for x in data] == [x for t in toks for x in t])
-            if not ok_tokens:
-                ctx.fail("cube_data_roundtrip_partial", key, None, "cube file: data block is not the data in rows of six {:12.5E} tokens", {"input": rep})
+            defect = cube_tokens_ok(lines, na, o, axes, shape, atnums, pseudo, atcoords, data)
+            if defect is not None:
+                try:
+                    with contextlib.redirect_stdout(io.StringIO()):
+                        g2, cd = UniformGrid.from_cube(str(f), weight="Rectangle", return_data=True)
+                    back = ("from_cube reads it back without error but " +
+                            ("with a different grid / atoms / data" if not (cube_close(g2.origin, o, 1.0) and cube_close(g2.axes, axes, 1.0)
+                                                                            and cube_close(cd["atcoords"], atcoords, 1.0) and cube_data_close(cd["data"], data))
+                             else "this reader does not"))
+                except Exception as e:
+                    back = f"from_cube raises {type(e).__name__}: {str(e)[:120]}"
+                ctx.fail("cube_data_roundtrip_partial", key, defect[:60],
+                         f"generate_cube -> from_cube: the written file does not carry grid, atoms and data as separate fields: {defect}; {back}", {"input": rep})
                 continue
             for angstrom in (False, True):
                 scale = 1.0
@@ -679,15 +769,16 @@ def stage_cube(ctx: Ctx):
                 errs = []
                 if tuple(int(s) for s in g2.shape) != shape or tuple(int(s) for s in g3.shape) != shape:
                     errs.append(("shape", list(map(int, g2.shape))))
-                for name, got, want in [("origin", g2.origin, np.array(o)), ("axes", g2.axes, np.array(axes)), ("atcoords", cd["atcoords"], np.array(atcoords)),
-                                        ("origin(no data)", g3.origin, np.array(o)), ("axes(no data)", g3.axes, np.array(axes))]:
-                    if np.shape(got) != want.shape or np.max(np.abs(np.asarray(got) - want * scale)) > 0.5000001e-6 * scale + 1e-12:
+                for name, got, want in [("origin", g2.origin, o), ("axes", g2.axes, axes), ("atcoords", cd["atcoords"], atcoords),
+                                        ("origin(return_data=False)", g3.origin, o), ("axes(return_data=False)", g3.axes, axes)]:
+                    if not cube_close(got, want, scale):
                         errs.append((name, np.asarray(got).tolist()))
-                if list(map(int, cd["atnums"])) != atnums or np.max(np.abs(cd["atcorenums"] - np.array(pseudo))) > 0.5000001e-6:
+                if list(map(int, cd["atnums"])) != atnums or not cube_close(cd["atcorenums"], pseudo, 1.0):
                     errs.append(("atoms", [cd["atnums"].tolist(), cd["atcorenums"].tolist()]))
-                if cd["data"].shape != (n,) or np.any(np.abs(cd["data"] - data) > 0.5000001e-5 * np.abs(data) + 1e-300):
+                if not cube_data_close(cd["data"], data):
                     errs.append(("data", cd["data"].tolist()))
-                if not np.allclose(g2.points, g.points * scale, atol=1e-5 * scale * max(shape)):
+                tol_pts = 1e-5 * scale * max(shape) * (1 + 1e-6 * float(np.abs(g.points).max()))
+                if np.shape(g2.points) != np.shape(g.points) or not np.all(np.abs(g2.points - g.points * scale) <= tol_pts):
                     errs.append(("points", None))
                 if errs:
                     ctx.fail("cube_data_roundtrip_partial", key + (":angstrom" if angstrom else ""), str(errs[0][0]),
@@ -696,6 +787,27 @@ def stage_cube(ctx: Ctx):
                     break
         except Exception as e:
             ctx.fail("cube_data_roundtrip_partial", key, type(e).__name__, f"cube write/read raises {type(e).__name__}: {e}", {"input": rep})
+        finally:
+            if f.exists():
+                f.unlink()
+    # ---- data of length 1..7 (no grid that short can be constructed or read back: shapes with a 1 are rejected by the constructors):
+    #      the writer alone, on a stand-in object, read by the independent token reader
+    for n in range(1, 8):
+        stub = types.SimpleNamespace(points=np.zeros((n, 3)), _origin=np.array([-99999.5, 1e-7, 0.25]),
+                                     _axes=np.array([[-1234.567891, 0, 0], [0, 1.0, 0], [0, 0, 99999.999999]]), _shape=np.array([1, 1, n]))
+        data = np.array((CUBE_SPECIAL_DATA * 2)[n - 1: 2 * n - 1])
+        key = f"cube:writer-only:length={n}"
+        ctx.case(key, traces=n)
+        ctx.count("cube_writer_only")
+        f = tmp / f"w{n}.cube"
+        try:
+            UniformGrid.generate_cube(stub, str(f), data, np.array([[-99999.999999, 0.0, 1e-7]]), np.array([118]), np.array([-1000.5]))
+            defect = cube_tokens_ok(f.read_text().splitlines(), 1, stub._origin, stub._axes, (1, 1, n), [118], [-1000.5], [[-99999.999999, 0.0, 1e-7]], data)
+            if defect is not None:
+                ctx.fail("cube_data_roundtrip_partial", key, defect[:60], f"generate_cube with {n} data values {data.tolist()}: {defect}",
+                         {"data": data.tolist(), "reproduce": "UniformGrid.generate_cube(<object with points of that length, _origin, _axes, _shape>, ...)"})
+        except Exception as e:
+            ctx.fail("cube_data_roundtrip_partial", key, type(e).__name__, f"generate_cube with {n} data values raises {type(e).__name__}: {e}", {"data": data.tolist()})
         finally:
             if f.exists():
                 f.unlink()
